@@ -312,6 +312,15 @@ C12_StoredOrderUntouched(x) ==
     \A i \in 1..Len(x.pre.orders) : LET o == x.pre.orders[i] IN
         (FullyStored(x.pre, o) /\ HasOrder(x.post, o.id)) =>
             OrderOf(x.post, o.id).amount = o.amount /\ OrderOf(x.post, o.id).replica = o.replica
+\* ... and never cancels a hand-over in progress on it: a migrating shard whose source is still stored survives block processing
+C12_MigrationUntouched(x) ==
+    Kind(x) = "Blocks" =>
+    \A i \in 1..Len(x.pre.shards) : LET m == x.pre.shards[i] IN
+        (m.status = SMigrating /\ HasOrder(x.pre, m.order) /\ FullyStored(x.pre, OrderOf(x.pre, m.order))
+         /\ \E k \in 1..Len(x.post.shards) : x.post.shards[k].sp = m.from /\ x.post.shards[k].status = SCompleted
+                                             /\ x.post.shards[k].size = m.size /\ HasShard(x.pre, x.post.shards[k].id)
+                                             /\ HasOrder(x.post, m.order) /\ InSeq(x.post.shards[k].id, OrderOf(x.post, m.order).shards))
+        => HasShard(x.post, m.id)
 \* bounded liveness: nothing handed over stays unresolved beyond its last possible examination
 C12_ResolvedByBound(s) ==
     \A i \in 1..Len(s.orders) : LET o == s.orders[i] IN
